@@ -335,7 +335,9 @@ def a_check(T, root, case, realroot=None, lcache=None):
             if case["factory"].startswith("listdir"):
                 lst_out = 0 if E.beneath(real(os.path.join(root, case["path"].lstrip("/"))), realroot) else 1
             else:
-                lst_out = 1 if any(not E.beneath(real(os.path.join(root, i)), realroot) for i in listing) else 0
+                # a listed name is content of the directory it was found in (a symlink's NAME lies where the link lies,
+                # whatever it points to; opening it is the file factories' business and judged there)
+                lst_out = 1 if any(not E.beneath(real(os.path.dirname(os.path.join(root, i))), realroot) for i in listing) else 0
             if lcache is not None:
                 lcache[key] = lst_out
     if lst_out:
